@@ -227,6 +227,36 @@ class Check:
         )
         return rc == 0, out + (("\n" + err) if rc != 0 else "")
 
+    def coq_run_files(self, paths: list[str], workers: int = 5, timeout: int = 900) -> dict[str, tuple[bool, str]]:
+        """Compile already-written scratch .v files in parallel; returns path -> (ok, output)."""
+        from concurrent.futures import ThreadPoolExecutor
+
+        def one(path):
+            rc, out, err = sh(
+                ["timeout", str(timeout), "coqc", "-Q", str(COQ), "TV", "-w", "none", path],
+                cwd=os.path.dirname(path),
+                timeout=timeout + 30,
+            )
+            return path, (rc == 0, out + (("\n" + err) if rc != 0 else ""))
+
+        with ThreadPoolExecutor(max_workers=workers) as ex:
+            return dict(ex.map(one, paths))
+
+    def regen(self, files: list[str]) -> bool:
+        """Regenerate coq/gen/<files> from /repo (write-if-changed); a failed translation is a
+        broken obligation."""
+        rc, out, err = sh([PY, "-B", str(VERIF / "tools" / "regen.py")] + files, env=impl_env(), timeout=300)
+        ok = True
+        try:
+            status = json.loads((BUILD / "regen_status.json").read_text())
+        except Exception:
+            status = {}
+        for f in files:
+            if status.get(f) != "ok":
+                ok = False
+                self.broken.append({"kind": "translation", "file": f, "error": status.get(f, out + err)[:2000]})
+        return ok
+
     # ---------------------------------------------------------------- implementation side
     def impl(self, script: str, args: list[str] | None = None, input: str | None = None,
              timeout: int = 900, env: dict | None = None, hashseed: str = "0"):
@@ -246,6 +276,9 @@ class Check:
         return str(p.relative_to(VERIF))
 
     def violation(self, what: str, replay: dict, no_input: bool = False):
+        if len(self.violations) >= 40:  # enough witnesses; keep counting only
+            self.count("violations_not_recorded")
+            return
         replay = dict(replay)
         replay["what"] = what
         path = self.write_replay(replay)
@@ -302,9 +335,11 @@ class Check:
             print(k)
         for i in self.info:
             print("INFO:", i)
-        for v in self.violations:
+        for v in self.violations[:5]:
             tail = " no-failing-input-found" if v["no_input"] else ""
             print(f"VIOLATION property={self.prop} replay={v['replay']}{tail}")
+        if len(self.violations) > 5:
+            print(f"({len(self.violations) - 5} further violations of {self.prop} not printed; see evidence/{self.prop}.json)")
         print(
             f"[{self.prop}] tier={self.tier} seed={self.seed} theorems={n_dis}/{n_obl} "
             f"cases={self.evaluations} distinct={len(self.distinct)} violations={len(self.violations)} "
